@@ -6,8 +6,8 @@ from eng_gen import q
 
 PROP_FILE = 'props/C05.v'
 RULE = ('(a) EXHAUSTIVE decision table on real items: item state(4) x run mode(4 + one unknown) x effect category '
-        '(6 mapped) x default effect? x online effect {absent, present and running, present but stopped by '
-        'force_stop} x chance attribute? = 2880 rows, each a module built through the public API whose '
+        '(6 mapped) x default effect? x online effect {absent, present in full compliance, stopped by '
+        'force_stop, forced to run, state compliance} x chance attribute? = 4800 rows, each a module built through the public API whose '
         'effects[eid].status is compared with the model (whose resolver is proved equal to the documented decision '
         'on the whole finite domain); (b) histories dominated by state and effect-mode changes (55%), incl. charges '
         'following their container, source switches and unloaded items; non-trivial = at least one '
@@ -23,7 +23,7 @@ def table_histories(rng, tier):
         for mode in (1, 2, 3, 4, 9):
             for cat in CATS:
                 for default in (0, 1):
-                    for online in ('absent', 'running', 'stopped'):
+                    for online in ('absent', 'running', 'stopped', 'forced', 'statecomp'):
                         for chance in (0, 1):
                             ul = ['u_attr 1 1000 - 1 1 -',
                                   'u_effect 1 2000 %d %s - 0 -' % (cat, '1000' if chance else '-'),
@@ -41,6 +41,10 @@ def table_histories(rng, tier):
                                 ops.append('mode 10 2000 %d' % mode)
                             if online == 'stopped':
                                 ops.append('mode 10 16 4')
+                            elif online == 'forced':
+                                ops.append('mode 10 16 3')     # 'online' itself forced to run whatever the state
+                            elif online == 'statecomp':
+                                ops.append('mode 10 16 2')
                             ops.append('effects 10')
                             meta = dict(items=[1, 10], fits=[1], sss=[1], attrs=[1000], setup_len=len(ops))
                             out.append(('row%d' % k, ul, ops, meta))
